@@ -185,7 +185,9 @@ C12_Cells ==
      cl \in {"ratio", "ode"}, s \in {"singlet-qed", "valence-qed"}, n \in Orders, q \in 1..2,
      f \in Nfs, d \in Dirs}
 C12_Req(c) ==
-  CASE c.clause = "ratio" -> Exp(181, 217, "second-order")       \* ratio of differences in [3.5, 4.5]
+  CASE c.clause = "ratio" ->                                      \* midpoint rule: second order
+         IF Switch = "FirstOrderScheme" THEN Exp(81, 117, "first-order")   \* ratio in [1.75, 2.25]
+         ELSE Exp(181, 217, "second-order")                       \* ratio of differences in [3.5, 4.5]
     [] c.clause = "pert-limit" -> Exp(158, 9000, "monotone-approach")
     [] c.clause = "ode" -> Dec(5, "local-ode-of-limit")
 
@@ -227,13 +229,14 @@ C15_Cells ==
   {[clause |-> "expanded-order", order |-> n, qed |-> q, running |-> r, method |-> "expanded", nf |-> f] :
      n \in Orders, q \in 0..2, r \in BOOLEAN, f \in 3..5}
 C15_InDomain(c) == c.running => c.qed >= 1     \* alpha_em can only run when QED is switched on
-(* expanded - exact vanishes beyond the working order n (>= n+1), beyond second order  *)
-(* in the couplings when alpha_em runs (the mixed terms are kept to first order only) *)
-C15_ExpandedOrder(c) == IF c.running /\ c.qed >= 1 THEN (IF c.order = 1 THEN 2 ELSE 3) ELSE c.order + 1
+(* The RGE truncated at order n keeps a^2..a^(n+1); "agrees up to terms beyond the     *)
+(* working order" = the absolute difference is O(a^(n+2)); with running alpha_em the    *)
+(* mixed terms are kept to first order only: O(a^3) (beyond second order).              *)
+C15_ExpandedOrder(c) == IF c.running THEN 3 ELSE c.order + 2
 C15_Req(c) ==
   CASE c.clause = "ref" -> Dec(99, "bitwise")
     [] c.clause = "monotone" -> Dec(99, "no-inversion")
-    [] c.clause = "rge" -> Dec(4, "local-rge")
+    [] c.clause = "rge" -> Dec(7, "local-rge-1e-7")
     [] c.clause = "expanded-order" -> Exp(100 * C15_ExpandedOrder(c) - 35, 9000, "beyond-working-order")
 
 (* =============================== dispatch ===================================== *)
